@@ -348,6 +348,98 @@ fn exec_resp(op: &[&str]) -> String {
         w.extend_from_slice(b"OK\n");
     }
     let resp = receive(&w);
+    // internal iteration and the adaptors an implementation may override (`fold`, `rfold`, `for_each`,
+    // `last`, `count`, `nth`, `nth_back`, through `rev()` too) agree with the stepwise walks
+    {
+        let fwd_ref = |skip: usize| -> Vec<String> {
+            let mut it = resp.frames();
+            for _ in 0..skip {
+                it.next();
+            }
+            let mut v = Vec::new();
+            while let Some(x) = it.next() {
+                v.push(item_ref(Some(x)));
+            }
+            v
+        };
+        let bwd_ref = |skip: usize| -> Vec<String> {
+            let mut it = resp.frames();
+            for _ in 0..skip {
+                it.next();
+            }
+            let mut v = Vec::new();
+            while let Some(x) = it.next_back() {
+                v.push(item_ref(Some(x)));
+            }
+            v
+        };
+        for skip in 0..=1usize {
+            let f = fwd_ref(skip);
+            let b = bwd_ref(skip);
+            let start = || {
+                let mut it = resp.frames();
+                for _ in 0..skip {
+                    it.next();
+                }
+                it
+            };
+            let start_own = || {
+                let mut it = resp.clone().into_iter();
+                for _ in 0..skip {
+                    it.next();
+                }
+                it
+            };
+            let checks: Vec<(&str, Vec<String>, &Vec<String>)> = vec![
+                ("frames.fold", start().fold(Vec::new(), |mut v, x| { v.push(item_ref(Some(x))); v }), &f),
+                ("frames.rfold", start().rfold(Vec::new(), |mut v, x| { v.push(item_ref(Some(x))); v }), &b),
+                ("frames.rev.fold", start().rev().fold(Vec::new(), |mut v, x| { v.push(item_ref(Some(x))); v }), &b),
+                ("frames.rev.collect", start().rev().map(|x| item_ref(Some(x))).collect(), &b),
+                ("frames.collect", start().map(|x| item_ref(Some(x))).collect(), &f),
+                ("into_iter.fold", start_own().fold(Vec::new(), |mut v, x| { v.push(item_own(Some(x))); v }), &f),
+                ("into_iter.rfold", start_own().rfold(Vec::new(), |mut v, x| { v.push(item_own(Some(x))); v }), &b),
+                ("into_iter.rev.fold", start_own().rev().fold(Vec::new(), |mut v, x| { v.push(item_own(Some(x))); v }), &b),
+                ("into_iter.rev.collect", start_own().rev().map(|x| item_own(Some(x))).collect(), &b),
+            ];
+            for (what, got, want) in checks {
+                if &got != want {
+                    return format!("diff:{what}-after-{skip}");
+                }
+            }
+            let mut v = Vec::new();
+            start().rev().for_each(|x| v.push(item_ref(Some(x))));
+            if v != b {
+                return format!("diff:frames.rev.for_each-after-{skip}");
+            }
+            let mut v = Vec::new();
+            start_own().rev().for_each(|x| v.push(item_own(Some(x))));
+            if v != b {
+                return format!("diff:into_iter.rev.for_each-after-{skip}");
+            }
+            let mut v = Vec::new();
+            start().for_each(|x| v.push(item_ref(Some(x))));
+            if v != f {
+                return format!("diff:frames.for_each-after-{skip}");
+            }
+            if start().last().map(|x| item_ref(Some(x))) != f.last().cloned() || start().rev().last().map(|x| item_ref(Some(x))) != f.first().cloned() {
+                return format!("diff:frames.last-after-{skip}");
+            }
+            if start_own().last().map(|x| item_own(Some(x))) != f.last().cloned() || start_own().rev().last().map(|x| item_own(Some(x))) != f.first().cloned() {
+                return format!("diff:into_iter.last-after-{skip}");
+            }
+            if start().count() != f.len() || start_own().count() != f.len() || start().rev().count() != f.len() {
+                return format!("diff:count-after-{skip}");
+            }
+            for k in 0..=f.len() + 1 {
+                if start().nth(k).map(|x| item_ref(Some(x))) != f.get(k).cloned() || start().nth_back(k).map(|x| item_ref(Some(x))) != b.get(k).cloned() {
+                    return format!("diff:frames.nth({k})-after-{skip}");
+                }
+                if start_own().nth(k).map(|x| item_own(Some(x))) != f.get(k).cloned() || start_own().nth_back(k).map(|x| item_own(Some(x))) != b.get(k).cloned() {
+                    return format!("diff:into_iter.nth({k})-after-{skip}");
+                }
+            }
+        }
+    }
     let head = format!(
         "sf:{},e:{},single:{}",
         resp.successful_frames(),
